@@ -197,7 +197,8 @@ class Categorize(Factory, Container):
     def __add__(self, other):
         if isinstance(other, Categorize):
             self._checkContent(other)
-            out = self._likeSelf(Categorize(self.quantity, self.value))
+            # the value template says what the bins look like even when there is no bin: keep it whichever side has it
+            out = self._likeSelf(Categorize(self.quantity, self.value if self.value is not None else other.value))
             out.entries = self.entries + other.entries
             out.bins = {}
             for k in self.keySet.union(other.keySet):
